@@ -5,6 +5,7 @@ import (
 	"crypto/cipher"
 	"encoding/binary"
 	"encoding/hex"
+	"errors"
 	"fmt"
 	"io"
 	"path/filepath"
@@ -31,11 +32,6 @@ var (
 	ivData1  = [encryptionKeySize]byte{0x69, 0x47, 0x47, 0x72, 0xaf, 0x6f, 0xda, 0xb3, 0x42, 0x74, 0x3a, 0xef, 0xaa, 0x18, 0x62, 0x87}
 )
 
-type cbcMode interface {
-	cipher.BlockMode
-	SetIV(iv []byte)
-}
-
 type region struct {
 	start, end sizeSectors
 }
@@ -61,9 +57,7 @@ type EncryptedISO struct {
 	clearRegions      bool
 	regionsHeaderSize sizeBytes
 	encryptedRegions  []region
-	cip               cipher.Block // to use in ReadAt
-	cbcDec            cbcMode
-	iv                []byte
+	cip               cipher.Block
 	offset            sizeBytes // to track where we are now without calling Seek
 }
 
@@ -136,44 +130,102 @@ func NewEncryptedISO(f afero.File, data1 []byte, clearRegions bool) (*EncryptedI
 		return nil, err
 	}
 
-	var iv [encryptionKeySize]byte
 	return &EncryptedISO{
 		clearRegions:      clearRegions,
 		regionsHeaderSize: sizeBytes(binary.Size(hdr) + binary.Size(unencryptedRegions)),
 		privateFile:       f,
 		encryptedRegions:  encryptedRegions,
 		cip:               cip,
-		cbcDec:            cipher.NewCBCDecrypter(cip, iv[:]).(cbcMode),
-		iv:                iv[:],
 	}, nil
 }
 
 func (e *EncryptedISO) Read(b []byte) (int, error) {
-	readStart := e.offset
-
-	read, err := e.privateFile.Read(b)
-	if err != nil || read == 0 {
-		return read, err
-	}
-
+	read, err := e.readAt(b, e.offset)
 	e.offset += sizeBytes(read)
-	e.clearRegionsData(readStart, b[:read])
-	e.decryptData(readStart, b[:read], false)
-	return read, nil
+
+	return read, err
 }
 
 func (e *EncryptedISO) ReadAt(b []byte, off int64) (int, error) {
-	read, err := e.privateFile.ReadAt(b, off)
-	if err != nil || read == 0 {
-		return read, err
+	if off < 0 {
+		return 0, syscall.EINVAL
 	}
 
-	e.clearRegionsData(sizeBytes(off), b[:read])
-	e.decryptData(sizeBytes(off), b[:read], true)
-	return read, nil
+	return e.readAt(b, sizeBytes(off))
+}
+
+// readAt reads and decrypts data at given offset.
+// A sector can be decrypted only as a whole, so the requested range is extended to sector borders,
+// read from the underlying file, processed and then the requested part is copied to the caller's buffer.
+// Underlying file position is not used, so this method is safe for concurrent use.
+func (e *EncryptedISO) readAt(b []byte, start sizeBytes) (int, error) {
+	if len(b) == 0 {
+		return 0, nil
+	}
+
+	end := start + sizeBytes(len(b))
+	alignedStart := start.floorSectors().bytes()
+	alignedEnd := end.sectors().bytes()
+
+	buf := b
+	if alignedStart != start || alignedEnd != end {
+		buf = make([]byte, alignedEnd-alignedStart)
+	}
+
+	// one ReadAt (or Read) call is allowed to return less than requested, so collect data until error
+	var (
+		read int
+		err  error
+	)
+	for read < len(buf) && err == nil {
+		var n int
+		n, err = e.privateFile.ReadAt(buf[read:], int64(alignedStart)+int64(read))
+		read += n
+		if n == 0 && err == nil {
+			err = io.ErrNoProgress
+		}
+	}
+
+	if err != nil && !errors.Is(err, io.EOF) {
+		// read failed in the middle: incomplete sector can't be decrypted, so drop it
+		read = int(sizeBytes(read).floorSectors().bytes())
+	}
+
+	e.clearRegionsData(alignedStart, buf[:read])
+	e.decryptData(alignedStart, buf[:read])
+
+	available := sizeBytes(read) - (start - alignedStart)
+	if available <= 0 {
+		if err == nil {
+			err = io.EOF
+		}
+
+		return 0, err
+	}
+
+	if available >= sizeBytes(len(b)) {
+		// requested range is fully read, error (if any) relates to extra data
+		if alignedStart != start || alignedEnd != end {
+			copy(b, buf[start-alignedStart:])
+		}
+
+		return len(b), nil
+	}
+
+	if alignedStart != start || alignedEnd != end {
+		copy(b, buf[start-alignedStart:sizeBytes(read)])
+	}
+
+	return int(available), err
 }
 
 func (e *EncryptedISO) Seek(offset int64, whence int) (int64, error) {
+	if whence == io.SeekCurrent {
+		// reads don't move position of the underlying file, so use our own one
+		offset += int64(e.offset)
+		whence = io.SeekStart
+	}
+
 	newOffset, err := e.privateFile.Seek(offset, whence)
 	if err != nil {
 		return newOffset, err
@@ -193,18 +245,20 @@ func (e *EncryptedISO) clearRegionsData(start sizeBytes, data []byte) {
 	}
 }
 
-func (e *EncryptedISO) decryptData(start sizeBytes, data []byte, cloneCBC bool) {
-	end := start + sizeBytes(len(data))
+// decryptData decrypts encrypted sectors in data. Start must be aligned to sector size.
+// Incomplete sector at the end of data (possible only at the end of file) is left as is.
+func (e *EncryptedISO) decryptData(start sizeBytes, data []byte) {
+	firstSector := start.floorSectors()
+	endSector := firstSector + sizeBytes(len(data)).floorSectors() // exclusive, only complete sectors
+
 	for _, region := range e.encryptedRegions {
-		if region.end <= start.sectors() || region.start > end.sectors() { // not covered
+		if region.end <= firstSector || region.start >= endSector { // not covered
 			continue
 		}
 
-		startSector := max(region.start, start.floorSectors())
-		endSector := min(region.end, end.sectors())
-		for i := startSector; i < endSector; i++ {
-			encryptedSpan := data[i.bytes()-start : i.next().bytes()-start]
-			e.setIVForSector(i, cloneCBC).CryptBlocks(encryptedSpan, encryptedSpan)
+		for i := max(region.start, firstSector); i < min(region.end, endSector); i++ {
+			encryptedSpan := data[(i - firstSector).bytes():(i - firstSector).next().bytes()]
+			e.decrypterForSector(i).CryptBlocks(encryptedSpan, encryptedSpan)
 		}
 	}
 }
@@ -217,15 +271,8 @@ func (*EncryptedISO) Truncate(int64) error { return syscall.EPERM }
 
 func (*EncryptedISO) WriteString(string) (int, error) { return 0, syscall.EPERM }
 
-func (e *EncryptedISO) setIVForSector(sector sizeSectors, clone bool) cipher.BlockMode {
-	if !clone { // called from Read, may reuse state
-		binary.BigEndian.PutUint32(e.iv[len(e.iv)-4:], uint32(sector))
-		e.cbcDec.SetIV(e.iv)
-		return e.cbcDec
-	}
-
-	// called from ReadAt, by convention it may be called from multiple goroutines, so we can't reuse state
-	// probably should be optimized, but it's not used now
+func (e *EncryptedISO) decrypterForSector(sector sizeSectors) cipher.BlockMode {
+	// separate decrypter per sector: ReadAt by convention may be called from multiple goroutines
 	var iv [encryptionKeySize]byte
 	binary.BigEndian.PutUint32(iv[len(iv)-4:], uint32(sector))
 	return cipher.NewCBCDecrypter(e.cip, iv[:])
